@@ -211,7 +211,8 @@ def relayout(stmts, rng, kinds):
     return term.join(lines) + term, start
 
 
-def dump(text, ext=".f90"):
+def dump(text, ext=".f90", hover_words=()):
+    """(symbols, diagnostics[, hover text of the first occurrence of each word])"""
     root = tempfile.mkdtemp(prefix="verif_c13_")
     try:
         path = os.path.join(root, "t" + ext)
@@ -234,6 +235,14 @@ def dump(text, ext=".f90"):
                 syms.append((s["name"].lower(), s["kind"], rg["start"]["line"], rg["end"]["line"], (s.get("containerName") or "").lower()))
         else:
             return None
+        if hover_words:
+            hovers = []
+            tl = text.replace("\r\n", "\n").replace("\r", "\n").split("\n")
+            for w in hover_words:
+                at = next(((i, l.lower().find(w)) for i, l in enumerate(tl) if w in l.lower()), None)
+                r, _ = impl.request(srv, conn, "textDocument/hover", impl.pos_params(path, at[0], at[1] + 1)) if at else (None, None)
+                hovers.append((w, " ".join(r[2]["contents"]["value"].lower().split()) if r and r[0] == "r" and r[2] else None))
+            return syms, diags, hovers
         return syms, diags
     finally:
         shutil.rmtree(root, ignore_errors=True)
@@ -307,6 +316,41 @@ def check_metamorphic(ctx, n):
                            {"kind": "counterexample", "input": {"original": base_text, "text": text, "transformations": sorted(kinds)},
                             "implementation": {"symbols": [x for x in tm[0] if x not in bm[0]][:8], "diagnostics": [x for x in tm[1] if x not in bm[1]][:8]},
                             "oracle": {"symbols": [x for x in bm[0] if x not in tm[0]][:8], "diagnostics": [x for x in bm[1] if x not in tm[1]][:8]}})
+
+
+FIXED_PROGRAM = ("      module fxm\n      implicit none\n      contains\n      real function area(w,\n     &                   h)\n      real w, h\n      area = w * h\n      end function area\n"
+                 "      subroutine reset(flag)\n      logical flag\n      flag = .false.\n      end subroutine reset\n      end module fxm\n")
+
+
+def check_fixed_comments(ctx):
+    """C13 for a fixed-form source: ordinary comments (flagged in column 1, or `!` after a few blanks, or from column 7 on) and blank
+    lines added between statements do not change the index (line numbers shift)"""
+    base_lines = FIXED_PROGRAM.split("\n")[:-1]
+    base3 = dump(FIXED_PROGRAM, ".f", hover_words=("area", "reset"))
+    base = base3[:2] if base3 else None
+    if base is None:
+        ctx.report("C13:no-index", "no outline for the fixed-form program", {"kind": "counterexample", "input": {"text": FIXED_PROGRAM}})
+        return
+    for trial in range(4 if ctx.quick() else 40):
+        lines, start = [], []
+        for i, l in enumerate(base_lines):
+            cont = l.startswith("     &")
+            if not cont and ctx.rng.random() < 0.4:
+                lines.append(ctx.rng.choice(["C a remark", "* a remark", "! a remark", "  ! note", "    ! note", " !x", "       ! from column 8", ""]))
+            start.append(len(lines))
+            lines.append(l)
+        text = "\n".join(lines) + "\n"
+        got3 = dump(text, ".f", hover_words=("area", "reset"))
+        got = got3[:2] if got3 else None
+        ctx.count(("fixed-comments", text), True)
+        if got is None or map_dump(got, start) != map_dump(base, list(range(len(base_lines)))) or got3[2] != base3[2]:
+            tm = map_dump(got, start) if got else ([], [])
+            bm = map_dump(base, list(range(len(base_lines))))
+            ctx.report("C13:layout", "entities/diagnostics of a fixed-form program change when ordinary comments and blank lines are added",
+                       {"kind": "counterexample", "input": {"original": FIXED_PROGRAM, "text": text, "transformations": ["comment", "blank"]},
+                        "implementation": {"symbols": [x for x in tm[0] if x not in bm[0]][:8], "diagnostics": [x for x in tm[1] if x not in bm[1]][:8], "hovers": got3[2] if got3 else None},
+                        "oracle": {"symbols": [x for x in bm[0] if x not in tm[0]][:8], "diagnostics": [x for x in bm[1] if x not in tm[1]][:8], "hovers": base3[2]}})
+            break
 
 
 def remap_joined(mapped, start):
@@ -434,6 +478,7 @@ def run(ctx):
     known_mixed_quotes(ctx)
     check_continuation(ctx, 300 if q else 6000)
     check_metamorphic(ctx, 40 if q else 800)
+    check_fixed_comments(ctx)
 
 
 def replay(ctx, path):
